@@ -8,9 +8,23 @@ pub struct Counting;
 pub static ENABLED: AtomicBool = AtomicBool::new(false);
 pub static BYTES: AtomicU64 = AtomicU64::new(0);
 pub static CALLS: AtomicU64 = AtomicU64::new(0);
+// Growth guard: while CAP is below u64::MAX, a single request larger than CAP zeroes the evaluator's fuel (guarded hook
+// noulith::verif::set_fuel), so a generated program that squares a bigint in a loop ends as status "fuel" at the next
+// evaluation step instead of as a wall-clock hang. The fuel cells are plain thread-local Cells (no allocation, no destructor).
+pub static CAP: AtomicU64 = AtomicU64::new(u64::MAX);
+pub static TRIPPED: AtomicBool = AtomicBool::new(false);
+
+#[inline]
+fn guard(size: usize) {
+    if size as u64 > CAP.load(Ordering::Relaxed) {
+        TRIPPED.store(true, Ordering::Relaxed);
+        noulith::verif::set_fuel(0);
+    }
+}
 
 unsafe impl GlobalAlloc for Counting {
     unsafe fn alloc(&self, l: Layout) -> *mut u8 {
+        guard(l.size());
         if ENABLED.load(Ordering::Relaxed) {
             BYTES.fetch_add(l.size() as u64, Ordering::Relaxed);
             CALLS.fetch_add(1, Ordering::Relaxed);
@@ -21,6 +35,7 @@ unsafe impl GlobalAlloc for Counting {
         System.dealloc(p, l)
     }
     unsafe fn realloc(&self, p: *mut u8, l: Layout, new_size: usize) -> *mut u8 {
+        guard(new_size);
         if ENABLED.load(Ordering::Relaxed) {
             // a realloc may copy the whole block: count the new size
             BYTES.fetch_add(new_size as u64, Ordering::Relaxed);
